@@ -23,6 +23,7 @@ import RoProps.C05a
 #print axioms Ro.C05a.takeUntil_impl
 #print axioms Ro.C05a.takeUntil_partial
 #print axioms Ro.C05a.takeUntil_signal_error_witness
+#print axioms Ro.C05a.takeUntil_concurrent_window_witness
 #print axioms Ro.C05a.skipUntil_impl
 #print axioms Ro.C05a.skipUntil_partial
 #print axioms Ro.C05a.skipUntil_signal_error_witness
